@@ -236,6 +236,9 @@ class ServerWorld:
             world.serial += 1
             b._sim_serial = world.serial
             world.bptks[b._sim_serial] = b
+            if world.cfg.get("factory_yield") and world.app is not None and Scheduler.active is not None:
+                # building the bptk takes a while: whatever else is in flight is served meanwhile
+                Scheduler.active.yield_now("slow_factory")
             if world.cfg.get("factory_cost_us") and world.app is not None:
                 # building a bptk (loading and registering a large model) takes (virtual) time: the instance exists when that is done
                 world.clock.advance(world.cfg["factory_cost_us"])
